@@ -414,7 +414,14 @@ func boundedLen(fn *ssa.Function, ms *ssa.MakeSlice) (bool, string) {
 			}
 			all := idx >= 0
 			for _, cs := range sites {
-				if !all || idx >= len(cs.Common().Args) || !upperBoundedAt(cs.Parent(), cs.(ssa.Instruction), cs.Common().Args[idx]) {
+				if !all || idx >= len(cs.Common().Args) {
+					all = false
+					continue
+				}
+				if k, isC := constInt(cs.Common().Args[idx]); isC && k >= 0 && k <= 1<<24 {
+					continue // a constant length at this call site
+				}
+				if !upperBoundedAt(cs.Parent(), cs.(ssa.Instruction), cs.Common().Args[idx]) {
 					all = false
 				}
 			}
